@@ -987,9 +987,12 @@ class ForestScenario(explore.Scenario):
             v.append(("C04/state-forest-differs-from-model", ""))
         v += self.check_derived(w)
         v += self.check_uuid(w, f)
-        if self.c16_probes:
-            v += self.check_c16_probes(w)
         return v
+
+    def check_state(self, w):
+        if self.c16_probes:
+            return self.check_c16_probes(w)
+        return []
 
     def check_uuid(self, w, f):
         """get_by_uuid(u) is the node reachable from ir through public
